@@ -952,8 +952,66 @@ class Srv:
             res.ok("R9.notify", "all-bodies", "", "%d Notify operations: no body signals and awaits the same Notify" % n)
 
     # ============================================================ C16
+    def program_hash_rule(self):
+        """R9.compat|program-hash: the hash the parties compare is computed over the unmodified bytes
+        of the program text (injective up to hash collisions): in Policy::program_hash the `program`
+        field is only viewed as bytes and handed to the hash function, never transformed first."""
+        res = self.res
+        fg = self.fg
+        fam = [(k, b) for k, b in fg.bodies.items() if b.owner.endswith("policy::Policy::program_hash")]
+        if not fam:
+            res.bad("R9.compat", "program_hash", "cannot locate Policy::program_hash")
+            return
+        VIEW = {"as_bytes", "deref", "as_str", "borrow", "as_ref", "as_slice", "clone", "to_owned", "into_bytes", "to_string", "into"}
+        hashed = None
+        transformed = None
+        for k, b in fam:
+            # locals that hold (views of) the program text
+            prog = set()
+            changed = True
+            while changed:
+                changed = False
+                for blk in b.blocks:
+                    for st in blk["s"]:
+                        if st["k"] != "assign" or st["p"]["pr"] or st["p"]["l"] in prog:
+                            continue
+                        r = st["r"]
+                        pl = r["p"] if r["k"] in ("ref", "rawptr") else (r["o"]["p"] if r["k"] == "use" and r["o"]["k"] != "const" else None)
+                        if pl is None:
+                            continue
+                        fl_ = [e for e in pl["pr"] if isinstance(e, dict) and e.get("n")]
+                        if (fl_ and fl_[-1]["n"] == "program" and "Policy" in (fl_[-1].get("a") or "")) or (pl["l"] in prog):
+                            prog.add(st["p"]["l"])
+                            changed = True
+                for bi, t in b.calls():
+                    cn = callee_names(t)
+                    tl = cn[-1].rsplit("::", 1)[-1] if cn else ""
+                    if tl in VIEW and t["args"] and t["args"][0]["k"] != "const" and t["args"][0]["p"]["l"] in prog and t["d"]["l"] not in prog:
+                        prog.add(t["d"]["l"])
+                        changed = True
+            for bi, t in b.calls():
+                cn = callee_names(t)
+                if not cn or bi not in b.live_blocks():
+                    continue
+                tl = cn[-1].rsplit("::", 1)[-1]
+                uses = [a for a in t["args"] if a["k"] != "const" and a["p"]["l"] in prog]
+                if not uses:
+                    continue
+                if any("blake3" in n and n.rsplit("::", 1)[-1] in ("hash", "update", "keyed_hash", "derive_key") for n in cn) or any("Digest" in n and n.endswith("update") for n in cn):
+                    hashed = hashed or (b, bi)
+                elif tl not in VIEW:
+                    transformed = transformed or (b, bi, cn[-1])
+        if transformed:
+            b, bi, nm = transformed
+            res.bad("R9.compat", "program_hash", "Policy::program_hash transforms the program text (%s) before hashing it: two different programs can have the same hash and are then accepted as compatible" % nm, where(b, bi))
+        elif not hashed:
+            res.bad("R9.compat", "program_hash", "Policy::program_hash does not hash the bytes of the program field", fl(fam[0][1].span))
+        else:
+            res.ok("R9.compat", "program_hash", where(hashed[0], hashed[1]), "the hash is computed over the unmodified bytes of Policy.program")
+
     def c16(self):
         res = self.res
+        self.program_hash_rule()
         n_cmp = 0
         for name, arm, swv in (("validate", "AwaitingValidation", None), ("schedule", "ValidateRequested", "ValidateRequested")):
             h = self.h(name)
